@@ -274,6 +274,9 @@ def inverse(cx):
 
 
 def run(cx):
+    from ..rules import exits_of
+    exits_of(cx, 'EXITS', ['plot._LogicleTransform.__init__', 'plot._LogicleTransform.transform_non_affine',
+                           'plot._InterpolatedInverseTransform.__init__', 'plot._InterpolatedInverseTransform.transform_non_affine'])
     init_precedence(cx)
     derivations(cx)
     refusals(cx)
